@@ -139,6 +139,7 @@ int main()
 	}
 	std::string line;
 	while(std::getline(std::cin,line)) {
+		alarm(300); // watchdog: a case that hangs kills the harness, the check reports the case after the last answered one
 		std::vector<std::string> v=split(line);
 		std::ostringstream out;
 		if((v.size()==5 || v.size()==6) && v[0]=="mp") {
